@@ -263,6 +263,21 @@ func (a *Activation) applyContract(con *FuncContract, fn *ssa.Function, args []V
 		pre = st.clone()
 		env.st, env.old, env.callBase = pre, pre, pre
 	}
+	// ghost locals of the callee's own proof (assigned by oncall / atexit clauses) are unknown to the caller
+	for _, c := range con.Clauses {
+		if c.Kind == "oncall" || c.Kind == "atexit" {
+			for _, as := range strings.Split(c.Expr, ";") {
+				if k := strings.Index(as, ":="); k >= 0 {
+					nm := strings.TrimSpace(as[:k])
+					if !strings.ContainsAny(nm, ".[") {
+						if _, have := vars[nm]; !have {
+							vars[nm] = intVal(t.fresh("ghost:"+nm, "Int"))
+						}
+					}
+				}
+			}
+		}
+	}
 	// values of opaque calls the callee will make are nameable relative to the pre-state
 	for _, c := range con.Clauses {
 		if c.Kind == "ext" || c.Kind == "oldlet" {
@@ -588,6 +603,17 @@ func (t *Task) frameCheck(act *Activation, con *FuncContract, st0, out *State) {
 		}
 		for _, x := range refs {
 			prem = append(prem, sNot(sEq(r, x)))
+		}
+		if name == "$calls" {
+			if t.modelNames == nil {
+				t.modelNames = map[string]string{}
+			}
+			for i, m := range targets {
+				if m.callsOf != "" {
+					t.modelSyms = append(t.modelSyms, m.callsOf)
+					t.modelNames[m.callsOf] = fmt.Sprintf("calls-target-%d", i)
+				}
+			}
 		}
 		goal := sImp(sAnd(prem...), sEq(sApp("select", a1, r), sApp("select", a0, r)))
 		oname := fmt.Sprintf("%s#frame[%s]", fname, name)
